@@ -34,10 +34,12 @@ def _writePotential(potential, cutoff, gridPoints, meshResolution, out ):
   dataTemplate = dataTemplate + u"\n"
 
   #First, do the energies
+  # Note: each r value is calculated from the grid index rather than by repeatedly adding
+  # meshResolution, the rounding error of a running sum grows with the row number and can put
+  # r on the wrong side of a boundary between potential ranges (e.g. 2.5 for a step of 0.01).
   l = []
-  r=0.0
   for i in range(gridPoints):
-    r += meshResolution
+    r = float(i+1) * meshResolution
     l.append(potential.energy(r))
 
     if len(l) == 4:
@@ -48,9 +50,8 @@ def _writePotential(potential, cutoff, gridPoints, meshResolution, out ):
 
   #Now, do the forces
   l = []
-  r = 0.0
   for i in range(gridPoints):
-    r += meshResolution
+    r = float(i+1) * meshResolution
     l.append(_calculateForce(potential, r))
 
     if len(l) == 4:
